@@ -261,6 +261,10 @@ func (c *c19) flow(b *world.Browser, issuer string, doc *oidc.DiscoveryConfigura
 		key := w.ClientKeys["jwt"]
 		jc := w.Store.Clients["jwt"]
 		payload := fmt.Sprintf(`{"iss":"jwt","aud":[%q],"client_id":"jwt","response_type":"code","state":"from-object","scope":"openid email"}`, issuer)
+		if s256 {
+			// both advertised: an S256 challenge carried inside the object must be recorded as such
+			payload = strings.TrimSuffix(payload, "}") + fmt.Sprintf(`,"code_challenge":%q,"code_challenge_method":"S256"}`, world.S256(verifier))
+		}
 		tok := signRaw([]byte(payload), "RS256", key.Key, key.KeyID)
 		jc.LoginBase = issuer + "/login"
 		q := url.Values{"client_id": {"jwt"}, "redirect_uri": {jc.Redirects[0]}, "response_type": {"code"}, "scope": {"openid"}, "state": {"plain"}, "request": {tok}}
@@ -270,6 +274,9 @@ func (c *c19) flow(b *world.Browser, issuer string, doc *oidc.DiscoveryConfigura
 			u, _ := url.Parse(r.Location)
 			if a := w.Store.AuthReqSnapshot(u.Query().Get("authRequestID")); a != nil && a.State == "from-object" {
 				honoured = true
+				if s256 && (a.Challenge == nil || a.Challenge.Challenge != world.S256(verifier) || a.Challenge.Method != oidc.CodeChallengeMethodS256) {
+					c.viol("request-object-not-honoured", "authorize/pkce", "S256 and request objects are advertised but the S256 challenge inside a valid request object was recorded as %+v", a.Challenge)
+				}
 			}
 		}
 		c.o.Probe("request-object-probes")
